@@ -130,6 +130,22 @@ CHECKS["C05"] = dict(category="exploration",
       note="Whether a promoted member of an interleaved group keeps a single is left open (statement, docstring and test_overlap_interleave "
            "disagree). Span of >= L/2 groups follows the C04 connect contract.",
       design="3/C05")
+CHECKS["C11"] = dict(category="exploration",
+      technique="Hypothesis results objects built by each module's own code from generated content, with generated save/regenerate/change-setting step lists inside the spec; oracle = byte-identical JSON and identical record side effects, refusal on changed settings",
+      text="RuleDetectionResults/HMMDetectionResults (real detection with dynamic profiles), SideloadedResults, NRPSPKSDomains/Module/Component, "
+           "HmmerResults/TIGRFam (incl. refilter), HMMResult trees and TTAResults are saved through antismash.common.json and regenerated via "
+           "Class.from_json, module.regenerate_previous_results or main.run_module over 1-4 cycles; unchanged settings must give byte-identical "
+           "JSON and identical record snapshots, changed schema/record/strictness/rules/multipliers/thresholds must give None or an exception.",
+      note="No external binaries are run; HMMER front ends are replaced by generated hits. Area formation after reuse is left to C05/C10/C17.",
+      design="3/C11")
+CHECKS["C19"] = dict(category="exploration",
+      technique="Hypothesis region layouts (windows rotated onto the ring so that each origin branch is reached, with branch counters) and direct predicates on build_area_rows / js.convert_regions output",
+      text="Real records (40-3000 bases, 0-8 protoclusters incl. sideloaded with unequal neighbourhoods, subregions, origin-spanning and multi-exon "
+           "genes, whole-record regions) get regions from the real creation code; build_area_rows and js.convert_regions output is checked for: every "
+           "protocluster/displayed candidate/subregion drawn exactly once or as two linked halves, no shared base on a row, core inside extent, "
+           "everything inside the announced range, exact shifted positions and genome order for origin-crossing regions, genes once/in range/linked.",
+      note="Layouts on which region creation raises (C06's subject) are counted and skipped. Row minimality and non-coordinate attributes are not judged.",
+      design="3/C19")
 NOT_YET = {}
 
 def main():
